@@ -36,7 +36,6 @@ Definition is_data_endpoint (e : endpoint) : bool := is_data_path (ep_path e).
 
 (** endpoints known to use no namespace privilege (recorded findings) *)
 Definition KnownUnguarded : list (string * string) := [
-  ("/rnacos/api/console/v2/config/download", "GET");
   ("/rnacos/api/console/v2/transfer/export", "GET");
   ("/rnacos/api/console/v2/transfer/import", "POST");
   ("/rnacos/api/console/v2/mcp/toolspec/list", "GET");
@@ -68,7 +67,6 @@ Definition KnownUnguarded : list (string * string) := [
   ("/rnacos/api/console/ns/instance", "POST");
   ("/rnacos/api/console/ns/instance", "PUT");
   ("/rnacos/api/console/ns/instance", "DELETE");
-  ("/rnacos/api/console/config/download", "GET");
   ("/rnacos/api/console/config/download", "POST");
   ("/rnacos/api/console/config/history", "GET");
   ("/rnacos/api/console/transfer/export", "GET");
